@@ -168,6 +168,7 @@ def programs(draw, feats=ALL_FEATS, min_nodes=2, max_nodes=8, clean=True, modes=
             elif kind == 'rec':
                 # sometimes a second consumer of an existing recurrent destination (same start / max_iterations)
                 prior = [m for n_ in b.nodes for _, m in n_['params'] if m[0] == 'rec' and m[2] not in used
+                         and not (clean and m[2] in b.sealed)  # interior of an enclosing subgraph: F6 region
                          and not any(pn in used for pn in S.rec_path_nodes(b.prog(), m[1], m[2]))]
                 if prior and draw(st.integers(0, 2)) == 0:
                     m = draw(st.sampled_from(prior))
@@ -216,6 +217,19 @@ def _decorate(draw, prog, feats):
             n['named'] = False
         if n['mode'] == 'thread' and draw(st.booleans()):
             n['thread_tag'] = True
+    if 'generic' in feats and draw(st.integers(0, 3)) == 0:
+        # a family of nodes built from ONE shared generic base (reusable node with different wirings)
+        by_mode = {}
+        for n in prog['nodes']:
+            if n['params'] and n['id'] != 'n0' and not n.get('additional_data') and n.get('named', True):
+                by_mode.setdefault((n['mode'], bool(n.get('thread_tag')), bool(n.get('rec_dest'))), []).append(n)
+        fams = [v for _, v in sorted(by_mode.items()) if len(v) >= 2]
+        if fams:
+            fam = draw(st.sampled_from(fams))
+            k = draw(st.integers(2, min(4, len(fam))))
+            for n in draw(st.permutations(fam))[:k]:
+                n['generic'] = True
+                n['generic_base'] = 'f'
 
 
 @st.composite
